@@ -74,7 +74,7 @@ def decode_case(prop_id, data):
         pre = fdp.ConsumeIntInRange(0, 6)
         hist = []
         while fdp.remaining_bytes() >= 3 and len(hist) < 20:
-            hist.append([fdp.ConsumeIntInRange(0, 7), fdp.ConsumeIntInRange(0, 5), fdp.ConsumeIntInRange(0, 7)])
+            hist.append([fdp.ConsumeIntInRange(0, 7), fdp.ConsumeIntInRange(0, 5), fdp.ConsumeIntInRange(0, 15)])
         return {"mode": "sequence", "inst": inst, "filters": filters, "history": hist, "pre": pre}
     if prop_id == "C02":
         inst = decode_instance(fdp)
